@@ -243,9 +243,15 @@ class DocGen:
                 menu.append("[$" + aname + "_item]")
                 menu.append("[" + valid_inputs(base.of_type)[0][0] + ", $" + aname + "_item]")
             InputObject = self.K[7]
-            if isinstance(base, InputObject) and base.fields:
-                f0 = next(iter(base.fields))
+            obj_t = base
+            while isinstance(obj_t, (List, NonNull)):
+                obj_t = obj_t.of_type
+            if isinstance(obj_t, InputObject) and obj_t.fields:
+                # a variable inside an object literal - written directly, also where a list (of lists) of objects is expected
+                f0 = next((n for n, f in obj_t.fields.items() if isinstance(f.type, NonNull)), next(iter(obj_t.fields)))
                 menu.append("{" + f0 + ": $" + aname + "_" + f0 + "}")
+                if obj_t is not base:
+                    menu.append("[{" + f0 + ": $" + aname + "_" + f0 + "}]")
             if self.ill:
                 menu += invalid_literals(a.type)
                 if required:
@@ -260,7 +266,7 @@ class DocGen:
                 elif vname.endswith("_item"):
                     vt = base.of_type
                 else:
-                    vt = base.fields[vname[len(aname) + 1:]].type
+                    vt = obj_t.fields[vname[len(aname) + 1:]].type
                 # declared with the position's type, or - the near miss for VariablesInAllowedPosition - its nullable / non-null twin
                 forms = ["exact"]
                 if isinstance(vt, NonNull):
